@@ -136,14 +136,15 @@ def run(ctx):
                 return True
             cl_ = up.call_at(blk)
             return cl_ is not None and cl_.name in ("for_each", "for_each_mut") and bool(cl_.args) and re.match(r"^(iter_mut|iter|into_iter)\(", describe_operand(up, cl_.args[0])) is not None and "queues" in describe_operand(up, cl_.args[0])
+        vall = set()
+        for c in rm:
+            for d, l, _ in guards(up, site.get(id(c), c.block)):
+                if d == "disc(action)":
+                    vall |= set(l.split("|"))
+        # (one arm with an or-pattern, or an arm per variant)
+        r.check(vall == {"Update", "Remove"}, "update_sync_queues/keyed=>remove", rm[0].loc() if rm else where(up), "Update|Remove remove the key from a queue (%s)" % sorted(vall), "remove is applied for %s" % sorted(vall))
         for c in rm:
             blk = site.get(id(c), c.block)
-            g = guards(up, blk)
-            v = set()
-            for d, l, _ in g:
-                if d == "disc(action)":
-                    v |= set(l.split("|"))
-            r.check(v == {"Update", "Remove"}, "update_sync_queues/keyed=>remove", c.loc(), "Update|Remove remove the key from a queue (%s)" % sorted(v), "remove is applied for %s" % sorted(v))
             if id(c) in site:
                 cl_ = up.call_at(blk)
                 by_key = any("key" in describe_operand(up, a) for a in cl_.args)
@@ -185,7 +186,17 @@ def run(ctx):
         if len(syn) != 1 or len(se) != 1:
             raise AnchorMissing("WriteQueues::pop: ToWrite::Synced / SyncEvent sites")
         d = describe_operand(pop, syn[0][2][0])
-        r.check((d.startswith("remove(") or d.startswith("swap_remove(")) and d.endswith(".id") and "sync_queues" in d, "WriteQueues::pop/Synced-id-of-removed-queue", pop.loc(syn[0][3]), "Synced(id) carries the id of the queue that was removed (%s)" % d[:70],
+        same_queue = (d.startswith("remove(") or d.startswith("swap_remove(")) and d.endswith(".id") and "sync_queues" in d
+        if not same_queue:
+            # the id read before the queue is removed (`let id = queue.id; .. sync_queues.remove(*sync_index)`): the same index, not changed in between
+            m_ = re.match(r"^(get_mut|get|index|index_mut)\((.*sync_queues), (.+)\)(<Some>\.0)?\.id$", d)
+            rms = [c for c in pop.calls if c.name in ("remove", "swap_remove") and c.args and "sync_queues" in describe_operand(pop, c.args[0])]
+            if m_ and len(rms) == 1 and describe_operand(pop, rms[0].args[1]) == m_.group(3):
+                gets = [c for c in pop.calls if c.name == m_.group(1) and c.args and "sync_queues" in describe_operand(pop, c.args[0])]
+                wr = [i for i, j, p_, rv, line in pop.assigns() if p_[1] and describe_place(pop, p_).endswith("sync_index")]
+                between = [i for i in wr if any(pop.reaches(g_.block, {i}) or g_.block == i for g_ in gets) and (pop.reaches(i, {rms[0].block}) or i == rms[0].block)]
+                same_queue = bool(gets) and not between and pop.dominates(rms[0].block, syn[0][0])
+        r.check(same_queue, "WriteQueues::pop/Synced-id-of-removed-queue", pop.loc(syn[0][3]), "Synced(id) carries the id of the queue that was removed (%s)" % d[:70],
                 "Synced carries %s" % d[:80])
         # the round-robin index stays inside the vector: whenever a queue is taken out, the index is brought back into range
         # before pop returns (otherwise get_mut(sync_index) is None for ever and the remaining snapshots and events are stuck)
@@ -242,12 +253,12 @@ def run(ctx):
         pw = ctx.saw(rt.fn(suffix="write_fut::perform_write::{closure#0}"))
         sends = [(c, describe_operand(pw, c.args[1]), dom_guards(pw, c.block)) for c in pw.calls if c.name == "send_notification"]
         for key in ("ValueSynced", "MapSynced"):
-            ev = [c for c, d, g in sends if "Event" in d and any(l == key for dd, l, _ in g)]
-            sy = [c for c, d, g in sends if "Synced" in d and any(l == key for dd, l, _ in g)]
+            ev = [c for c, d, g in sends if d.startswith("Notification::Event") and any(l == key for dd, l, _ in g)]
+            sy = [c for c, d, g in sends if d.startswith("Notification::Synced") and any(l == key for dd, l, _ in g)]
             r.check(len(ev) == 1 and len(sy) == 1 and pw.reaches(ev[0].block, {sy[0].block}) and not pw.reaches(sy[0].block, {ev[0].block}), "perform_write/%s/events-then-synced" % key, where(pw),
                     "%s: events precede synced, nothing follows it" % key, "%s: an event can be sent after synced" % key)
         hd = [c for c in pw.calls if c.name == "has_data"]
-        sy = [c for c, d, g in sends if "Synced" in d and any(l == "MapSynced" for dd, l, _ in g)]
+        sy = [c for c, d, g in sends if d.startswith("Notification::Synced") and any(l == "MapSynced" for dd, l, _ in g)]
         if hd and sy:
             be = pw.bool_edges(hd[0])
             # leaving the drain loop towards synced happens only on has_data() == false (or an error return)
